@@ -46,3 +46,29 @@ func TestS3SimSelf(t *testing.T) {
 	}
 	t.Logf("requests: %v", s.log)
 }
+
+// TestSFTPShimSelf checks the sftp shim against the real SFTPStore client.
+func TestSFTPShimSelf(t *testing.T) {
+	dir := t.TempDir()
+	st, err := sftpStore(dir, 2, false)
+	if err != nil {
+		t.Fatal(err)
+	}
+	defer st.Close()
+	ch := desync.NewChunk([]byte("hello sftp shim"))
+	if err := st.StoreChunk(ch); err != nil {
+		t.Fatal(err)
+	}
+	got, err := st.GetChunk(ch.ID())
+	if err != nil {
+		t.Fatal(err)
+	}
+	if b, _ := got.Data(); string(b) != "hello sftp shim" {
+		t.Fatal("data differs")
+	}
+	if _, err := st.GetChunk(desync.ChunkID{7}); err == nil {
+		t.Fatal("missing chunk returned")
+	} else if _, ok := err.(desync.ChunkMissing); !ok {
+		t.Fatalf("missing reported as %T %v", err, err)
+	}
+}
